@@ -43,6 +43,35 @@ def run(chk):
             if r != impl[k]:
                 chk.violate({"kind": "property", "case": lib.show_case(c), "eager": impl[k][:1500], "lazy": r[:1500],
                              "explanation": "a consumer that does not read the members while iterating (mode %s) sees other members or bytes than one that reads each member at once" % mode.decode()})
+    # a reader that breaks down behind the global magic (every later read: one byte and an I/O error): whatever that byte is - a
+    # newline, as in a member name that starts with one - the iteration ends in the error, never in a clean end of archive
+    fc = [("ariterlazy", [cases[k][1][0], b"failone"]) for k in sub]
+    fc += [("ariterlazy", [argen.render([argen._member(rng, b"\nx", True, False, b"abc")]), b"failone"])]
+    fi = chk.run_impl(fc)
+    chk.record("reader-that-fails-after-one-byte", fc, fi, lambda c, r: True)
+    for c, r in zip(fc, fi):
+        if len(c[1][0]) > 8 and r != "[] err":
+            chk.violate({"kind": "property", "case": lib.show_case(c), "impl": r[:300],
+                         "explanation": "behind a reader that fails after one byte the iteration did not end in that error (a read error was taken for the end of the archive, or a member was returned)"})
+    # the numeric columns are 64-bit on every platform: archives whose members are stamped after 2038 (2^31 ... 10^12-1) through
+    # the harness built for GOARCH=386 give what the amd64 build gives
+    exe386 = lib.build_harness_386()
+    if exe386 is None:
+        chk.notes.append("no 32-bit harness could be built or run here: the GOARCH=386 ar stream was skipped")
+    else:
+        bc = []
+        for ts in (b"2147483647", b"2147483648", b"4294967296", b"999999999999", b"253402300799"):
+            m = argen._member(rng, b"late", False, False, b"x" * rng.randrange(0, 9))
+            m["ts"] = ts
+            m2 = argen._member(rng, b"uid", True, False, b"yy"); m2["uid"] = b"999999"; m2["gid"] = b"000099"
+            bc.append(("ariter", [argen.render([m, m2])]))
+        b64 = chk.run_impl(bc)
+        b32 = lib.run_lines(exe386, bc)
+        chk.record("columns-on-a-32-bit-platform", bc, b32, lambda c, r: r.startswith("[ "))
+        for c, x, y in zip(bc, b64, b32):
+            if x != y or not y.endswith(" eof"):
+                chk.violate({"kind": "property", "case": lib.show_case(c), "impl": y[:300], "amd64": x[:300], "platform": "GOARCH=386",
+                             "explanation": "a well-formed archive whose timestamp column does not fit 32 bits was not read back with its recorded metadata on a 32-bit platform"})
     # archives made by the system ar from the same members
     made = system_ar(chk, rng)
     if made:
